@@ -27,7 +27,14 @@ RULE = ('selection: datasets (normal/uniform/exponential/beta/lognormal/bimodal/
         'inheritance, multiple inheritance) run through the real _select_candidates.  GaussianMultivariate: 2-4 column '
         'frames x config forms (class, FQN, prototype, dict full/partial/empty/extra keys, str and int column names) '
         'incl. distributions raising in fit; model composes per-column outcome into the fitted types')
-PARTIAL = []
+PARTIAL = ['"the fit still succeeds" is proved for _fit_columns (fit_columns_total); the later _get_correlation step of '
+           'GaussianMultivariate.fit is outside the model and only exercised by the search on the real code',
+           'a distribution reference that cannot even be instantiated (unknown FQN, constructor raising) makes '
+           'get_instance raise outside the try: modelled as the error branch of fitColumn (hypothesis hinst of '
+           'fallback_total), not as a fallback case',
+           'statistics equal to +inf (impossible for a genuine cdf, reachable with a rigged one): select_argmin leaves '
+           'open whether such a candidate or none is selected when no candidate is below +inf (the acceptor takes both)',
+           'select_first_min (first minimiser wins) is proved of the strict-< model only and not tied to the code']
 ASSUMPTIONS = ['a candidate outcome (raised / KS value) is a deterministic function of (candidate, data): the harness '
                'recomputes it with the same calls as the code (re-checked on any disagreement)',
                'binary64 `<` on non-NaN values is a linear order with +inf on top (model runs on the same bit patterns)',
@@ -764,9 +771,9 @@ def tie_gm(ctx, lean, outs):
     rng = ctx.rng('gm')
     refs = gm_refs()
     bad = None
-    for k in range(7 + 3 * (ctx.scale - 1)):
+    for k in range(6 + 3 * (ctx.scale - 1)):
         did, df = make_frame(ctx, 'G', k)
-        for _ in range(7):
+        for _ in range(6 if ctx.scale == 1 else 8):
             key, kind, branch, real, model, detail = gm_case(ctx, lean, outs, rng, refs, did, df)
             ctx.case(key, nontrivial=True)
             ctx.count('gm:config=' + kind)
@@ -782,6 +789,29 @@ def tie_gm(ctx, lean, outs):
 # =============================================================================== failing-input search (real code only)
 def lt(a, b):
     return a is not None and b is not None and a < b      # IEEE: false on NaN
+
+
+def optimality_violation(L, X, outcomes):
+    """the property's optimality clause on the real `Univariate(candidates=L).fit(X)`:
+    -> None | (observed, required, class key)"""
+    real = real_univariate_fit([e.obj for e in L], X)
+    ks = ['raised' if o is None else o for o in outcomes]
+    finite = [o for o in outcomes if o is not None and o < math.inf]
+    if real[0] == 'ok':
+        mine = [o for e, o in zip(L, outcomes) if e.type == real[1] and o is not None and o == o]
+        if not mine:
+            return ({'selected': real[1], 'ks': ks}, 'the selected family is one that could be fitted to the data',
+                    'Univariate.fit:selected-unfittable')
+        best = min(mine)
+        smaller = [(e.key, o) for e, o in zip(L, outcomes) if lt(o, best)]
+        if smaller:
+            return ({'selected': real[1], 'selected_ks': best, 'smaller': smaller, 'ks': ks},
+                    'no fittable candidate has a strictly smaller KS statistic than the selected one',
+                    'Univariate.fit:not-minimal')
+    elif finite:
+        return ({'raised': real[1], 'ks': ks}, 'a minimiser is selected whenever some candidate can be fitted',
+                'Univariate.fit:raises-with-fittable-candidate')
+    return None
 
 
 def search(ctx, deep):
@@ -805,26 +835,10 @@ def search(ctx, deep):
         for did, kind, X in datasets(ctx, 'Q', 30 if deep else 5):
             for mode, L in candidate_lists(rng, entries, 12 if deep else 5) + [('all-real', [Entry('cls:' + c.__name__, c) for c in real_families()])]:
                 outcomes = [outs.get(did, e, X) for e in L]
-                real = real_univariate_fit([e.obj for e in L], X)
                 checked += 1
-                inp = {'dataset': did, 'X': X.tolist(), 'candidates': [e.key for e in L]}
-                ks = ['raised' if o is None else o for o in outcomes]
-                finite = [o for o in outcomes if o is not None and o < math.inf]
-                if real[0] == 'ok':
-                    mine = [o for e, o in zip(L, outcomes) if e.type == real[1] and o is not None and o == o]
-                    if not mine:
-                        bad('Univariate.fit', inp, {'selected': real[1], 'ks': ks},
-                            'the selected family is one that could be fitted to the data', 'Univariate.fit:selected-unfittable')
-                        continue
-                    best = min(mine)
-                    smaller = [(e.key, o) for e, o in zip(L, outcomes) if lt(o, best)]
-                    if smaller:
-                        bad('Univariate.fit', inp, {'selected': real[1], 'selected_ks': best, 'smaller': smaller, 'ks': ks},
-                            'no fittable candidate has a strictly smaller KS statistic than the selected one',
-                            'Univariate.fit:not-minimal')
-                elif finite:
-                    bad('Univariate.fit', inp, {'raised': real[1], 'ks': ks},
-                        'a minimiser is selected whenever some candidate can be fitted', 'Univariate.fit:raises-with-fittable-candidate')
+                v = optimality_violation(L, X, outcomes)
+                if v is not None:
+                    bad('Univariate.fit', {'dataset': did, 'X': X.tolist(), 'candidates': [e.key for e in L]}, *v)
     def part2():
         nonlocal checked
         # ---- 2. filters and explicit candidates
@@ -927,6 +941,14 @@ def real_column_expectation(outs, did, col, entry, series):
 
 
 def replay(ctx, payload):
+    inp = payload.get('input') or {}
+    if str(payload.get('class', '')).startswith('Univariate.fit:') and 'X' in inp and 'candidates' in inp:
+        by_key = {e.key: e for e in all_entries() + [Entry('cls:' + c.__name__, c) for c in real_families()]}
+        if all(k in by_key for k in inp['candidates']):
+            L = [by_key[k] for k in inp['candidates']]
+            X = np.array([float(x) for x in inp['X']], dtype=float)     # 'nan' strings come back as NaN
+            v = optimality_violation(L, X, [Outcomes.compute(e, X) for e in L])
+            return v is not None
     before = len(ctx.failing)
     search(ctx, True)
     return any(f['class'] == payload.get('class') for f in ctx.failing[before:])
